@@ -67,12 +67,14 @@ Proof.
   apply andb_prop in G. destruct G as [G1 G2]. apply N.eqb_eq in G1. apply N.eqb_eq in G2. subst. auto.
 Qed.
 
-Lemma land_f000 i : i < 16384 -> N.land i 0xf000 = (i / 4096) * 4096.
+Lemma land_f000 c low : c < 4 -> low < 4096 -> N.land (c * 4096 + low) 0xf000 = c * 4096.
 Proof.
-  intros Hi.
-  assert (F : forallb (fun i => N.land i 0xf000 =? (i / 4096) * 4096) (range 16384) = true)
-    by (vm_compute; reflexivity).
-  apply N.eqb_eq. exact (forallb_range _ _ F i Hi).
+  intros Hc Hlow. rewrite <- lor_add_4096 by assumption.
+  rewrite N.land_lor_distr_l.
+  change 0xf000 with (15 * 2 ^ 12). change 4096 with (2 ^ 12).
+  rewrite (N.land_comm low), (land_low_mul 15 low 12) by assumption. rewrite N.lor_0_r.
+  rewrite <- !N.shiftl_mul_pow2, <- N.shiftl_land. f_equal.
+  change 15 with (N.ones 4). rewrite N.land_ones. apply N.mod_small. cbn. lia.
 Qed.
 
 (* ------------------------------------------------------- encode_2d_slow *)
@@ -171,8 +173,7 @@ Proof.
       cbn [e2_final]. cbv zeta.
       replace (Z.to_N (- (2 * Z.of_nat r - 12))) with (2 * N.of_nat (6 - r)) by lia.
       replace (Z.to_N (12 + (2 * Z.of_nat r - 12))) with (2 * N.of_nat r) by lia.
-      rewrite (land_f000 (c * 4096 + low)) by lia.
-      replace ((c * 4096 + low) / 4096) with c by (apply N.div_unique with (r := low); lia).
+      rewrite (land_f000 c low) by assumption.
       rewrite land_fff, wrap64_mod, N.shiftl_mul_pow2, <- pow4_2.
       (* ((z * 4^(6-r)) mod 2^64) mod 4096 = (z mod 4^r) * 4^(6-r) *)
       set (p := 4 ^ N.of_nat (6 - r)). set (pr := 4 ^ N.of_nat r).
@@ -235,8 +236,7 @@ Proof.
       assert (Hch : ch < 4096) by (apply N.mod_lt; lia).
       assert (Eenc : enc_2 6 c ch = enc_2 6 c zt) by (apply (enc2_mod 6)).
       assert (Est : st_2 6 c ch = st_2 6 c zt) by (apply (st2_mod 6)).
-      rewrite (land_f000 (c * 4096 + low)) by lia.
-      replace ((c * 4096 + low) / 4096) with c by (apply N.div_unique with (r := low); lia).
+      rewrite (land_f000 c low) by assumption.
       rewrite wrap16_small by (change (2 ^ 16) with 65536; lia).
       rewrite lor_add_4096 by assumption.
       rewrite lut2_get_spec by assumption.
